@@ -107,7 +107,7 @@ def check(run):
     run.assumptions += ["gate-level claim only: the emitted constraints imply the denominator-cleared Edwards addition/curve equations; that these equations define the group law is classical mathematics outside the check",
                         "constraint structure extracted at one admissible witness per operation (C09 assumed; spot-checked on the alternative inputs)"]
     run.outside += ["subgroup membership of assigned points (the cofactor-clearing construction is in the extracted system but its specification is a statement about the group)",
-                    "scalar multiplication, MSM, hash-to-curve, point compression (both chips); foreign-curve gates are in part C06_F"]
+                    "full-width (252/255-bit) scalar multiplication, windowed MSM, hash-to-curve, point compression (both chips); the ladder rows of the native chip for short scalars are in part C06_M, foreign-curve gates in part C06_F"]
     run.bounds.append(f"tier={t}: {len(ents)} operations of the native Edwards chip (Jubjub over the BLS12-381 scalar field), k=11")
     run.notes.append("Engine C: field products are uninterpreted with field lemmas and monomial normalisation (a product is determined by its multiset of cells), so degree-5 gate polynomials and the textbook equations share terms.")
     cengine.run_family(run, "edwards", ents, timeout=120 if t == "quick" else 600, only=getattr(run, "only", None), workers=6)
